@@ -584,8 +584,126 @@ def rule_float_sums(rep, repo):
                   ao.attrs.get("is_floating_point"), bo.attrs.get("bits"),
                   need, need_b), loc=loc, instance=cfg,
               observed="%r/%r" % (ao.attrs.get("bits"), bo.attrs.get("bits")))
+  # merge layers with floating-point inputs: the merged type is floating
+  # point and as wide as the widest floating-point input, in every order
+  mg = repo.module(MG)
+  munit = "%s::MergeFactory.make_quantizer" % mg.relpath
+  rep.unit(munit)
+  for layer_type in ("Add", "Maximum", "Minimum", "Average", "Concatenate",
+                     "Multiply"):
+    for specs in ([("float", 16), ("float", 32)],
+                  [("float", 32), ("float", 16)],
+                  [("float", 16), ("fixed_s", None), ("float", 32)],
+                  [("float", 32), ("float", 32)]):
+      pe = PE(repo)
+      cfg = "MergeFactory.make_quantizer(%s, %r)" % (
+          [k + str(b or "") for k, b in specs], layer_type)
+      try:
+        fac = pe.call(pe.lookup_global("MergeFactory", mg), [], {})
+        edges = [(operand(pe, sp, str(i)), Mock("edge", {}))
+                 for i, sp in enumerate(specs)]
+        r = pe.call(pe.getattr(fac, "make_quantizer"), [edges, layer_type],
+                    {})
+      except PyRaise as e:
+        rep.fail("R9", munit, "factory-raises", "%s raises %s" % (cfg, e),
+                 loc=loc, instance=cfg)
+        continue
+      n += 1
+      o = r.attrs.get("output")
+      isf = isinstance(o, Obj) and bool(o.attrs.get("is_floating_point"))
+      bits = o.attrs.get("bits") if isinstance(o, Obj) else None
+      rep.check(isf and bits == 32, "R9", munit, "float-merge-width",
+                "%s: the merged type is %s with %r bits, expected floating "
+                "point with 32 bits" % (cfg, "floating point" if isf else
+                                        "not floating point", bits),
+                loc=loc, instance=cfg, observed="%s/%r" % (isf, bits))
   if n < 30:
     raise AnalysisError("instance-count only %d float sums" % n)
+
+
+def rule_recorded_values(rep, repo):
+  """R10: bookkeeping is not type.  In inference mode the data-type map
+  records on a po2 weight / bias type how many distinct values the tensor
+  holds (`update_inference_values`); the number says nothing about where
+  those values lie, so every sum built on the operand afterwards - bias add,
+  merge, accumulator of its products - has the type it has without the
+  record."""
+  af = repo.module(AF)
+  cf = repo.module(CF)
+  mf = repo.module(MF)
+  mg = repo.module(MG)
+  unit = "%s::po2_to_qbits" % repo.module(
+      "qkeras.qtools.quantized_operators.accumulator_impl").relpath
+  rep.unit(unit)
+  loc = af.loc(af.classes["IAdder"].node)
+  fields = ("mode", "bits", "int_bits", "is_signed", "is_floating_point",
+            "max_val_po2")
+
+  def snap(q):
+    return {f_: q.attrs.get(f_) for f_ in fields} if isinstance(
+        q, Obj) else q
+
+  def sized(pe, kind, tag, bits, ib=None):
+    q = ta.make_operand(pe, repo, kind, tag)
+    if kind.startswith("fixed"):
+      q.attrs["bits"], q.attrs["int_bits"] = bits, ib
+    else:
+      q.attrs["bits"] = q.attrs["int_bits"] = bits
+    return q
+  n = 0
+  for kind in ("po2_s", "po2_u"):
+    for nvals in (1, 2, 3):
+      vals = [F(1, 256), F(64), F(1, 2)][:nvals]
+      weights = Mock("weights", {"flatten": lambda pe_, a, k, vals=vals:
+                                 list(vals) * 2})
+
+      def build(pe, record):
+        p = sized(pe, kind, "p", 5)
+        if record:
+          pe.call(pe.getattr(p, "update_inference_values"), [weights], {})
+        out = {}
+        fac = pe.call(pe.lookup_global("IAdder", af), [], {})
+        acc = sized(pe, "fixed_s", "a", 9, 2)
+        out["bias add"] = snap(pe.call(pe.getattr(fac, "make_quantizer"),
+                                       [acc, p], {}).attrs.get("output"))
+        out["bias add, swapped"] = snap(pe.call(
+            pe.getattr(fac, "make_quantizer"), [p, acc], {}).attrs.get(
+                "output"))
+        out["po2 + po2"] = snap(pe.call(
+            pe.getattr(fac, "make_quantizer"),
+            [p, sized(pe, "po2_s", "q", 4)], {}).attrs.get("output"))
+        mfac = pe.call(pe.lookup_global("MergeFactory", mg), [], {})
+        out["merge Add"] = snap(pe.call(
+            pe.getattr(mfac, "make_quantizer"),
+            [[(p, Mock("edge", {})), (acc, Mock("edge", {}))], "Add"],
+            {}).attrs.get("output"))
+        mul = pe.call(pe.getattr(pe.call(pe.lookup_global(
+            "MultiplierFactory", mf), [], {}), "make_multiplier"),
+                      [p, sized(pe, "po2_u", "x", 3)], {})
+        afac = pe.call(pe.lookup_global("AccumulatorFactory", cf), [], {})
+        out["accumulator of its products"] = snap(pe.call(
+            pe.getattr(afac, "make_accumulator"), [[3, 4], mul],
+            {"use_bias": False}).attrs.get("output"))
+        return out
+      cfg = "%s operand (5 bits) holding %d distinct values" % (kind, nvals)
+      try:
+        plain = build(PE(repo), False)
+        recorded = build(PE(repo), True)
+      except PyRaise as e:
+        rep.fail("R10", unit, "raises", "%s: raises %s" % (cfg, e), loc=loc,
+                 instance=cfg)
+        continue
+      for what in sorted(plain):
+        n += 1
+        rep.check(plain[what] == recorded[what], "R10", unit,
+                  "type-depends-on-recorded-values:" + what,
+                  "%s: %s is %r once update_inference_values() recorded the "
+                  "count, %r without the record" % (
+                      cfg, what, recorded[what], plain[what]), loc=loc,
+                  instance="%s/%s" % (cfg, what))
+  if n < 20:
+    raise AnalysisError("instance-count only %d sums on recorded operands"
+                        % n)
 
 
 def run(rep, repo, tier):
@@ -605,6 +723,8 @@ def run(rep, repo, tier):
   rep.require_instances("R8", 24)
   rule_float_sums(rep, repo)
   rep.require_instances("R9", 30)
+  rule_recorded_values(rep, repo)
+  rep.require_instances("R10", 20)
   rep.require_instances("R6", 40)
   # R7: get_min_max_exp (trusted by the po2 adders / accumulators) against
   # the qkeras po2 quantizers' own exponent sets (rule shared with C18)
